@@ -1,0 +1,14 @@
+//go:build verif
+
+package reghttp
+
+import "time"
+
+// VerifBackoff returns the backoff bookkeeping of a host: the count of backoffs, the time the last request was
+// released (zero if no delay is needed) and the count of successful requests since (verification hook).
+func (c *Client) VerifBackoff(host string) (cur int, last time.Time, reset int) {
+	ch := c.getHost(host)
+	ch.mu.Lock()
+	defer ch.mu.Unlock()
+	return ch.backoffCur, ch.backoffLast, ch.backoffReset
+}
